@@ -169,6 +169,22 @@ func (x *ctx) single(rng *rand.Rand) {
 			}, wd, d)
 			x.try("SetExpanded("+t.name+")", func() *curve.EdwardsPoint { return x.h.E().SetExpanded(t.xp) }, t.pt, d)
 			x.try("Expanded.Point("+t.name+")", func() *curve.EdwardsPoint { return t.xp.Point() }, t.pt, d)
+			// the delta-scaled triple product through the same expansion: [a]A + [b]B - C is the identity for C = aA + bB
+			// and B for C = aA + bB - B; only membership in E[8] of the result is defined
+			for _, off := range []int{0, 1} {
+				cref := wd
+				if off == 1 {
+					cref = wd.Add(ref.B.Neg())
+				}
+				cl := gen.LibPoint(ref.Encode(cref))
+				var small bool
+				pan, msg := mon.Try(func() { small = x.h.E().ExpandedTripleScalarMulBasepointVartime(sc, t.xp, sc2, cl).IsSmallOrder() })
+				x.r.Eval(nil)
+				x.r.Hist("op/ExpandedTripleScalarMulBasepointVartime(" + t.name + ")")
+				if pan || small != (off == 0) {
+					x.r.Violate("group/ExpandedTripleScalarMulBasepointVartime("+t.name+")", fmt.Sprintf("small order = %v, want %v (panic=%v %s); %s", small, off == 0, pan, msg, d()), x.c)
+				}
+			}
 		}
 	}
 	// multiscalar with one and two terms must agree as well
